@@ -222,7 +222,7 @@ def run_ops(case):
             elif op == "rename":
                 o = pick(objs() + groups(), a)
                 if o is not None:
-                    o.name = fresh("renamed")
+                    o.name = fresh("renamed") + ("  " if step % 2 else "") if step % 3 else "  " + fresh("renamed")  # names are free text: blanks are kept
             elif op == "flag":
                 o = pick(objs(), a)
                 if o is not None:
